@@ -20,7 +20,7 @@ CLASSIFY = None
 
 
 def streams(ctx):
-    n = 6 if ctx.thorough else 1
+    n = 12 if ctx.thorough else 1
     return [("scripts", "script", 600 * n), ("null-maps", "null", 150 * n), ("null-tight", "nulltight", 150 * n), ("tight-scripts", "tightscript", 300 * n), ("same-named-contigs", "dupnames", 150 * n), ("perturbed", "perturbed", 250 * n), ("arbitrary-baits", "baits", 200 * n),
             ("tagged", "tagged", 150 * n)]
 
